@@ -27,7 +27,12 @@ CONSTANTS
     PlusOne,             \* length of first-last is last - first + 1
     UnsatGe,             \* first >= size is unsatisfiable (wrong design: first > size)
     ImsLe,               \* not modified iff last_modified <= if_modified_since (wrong design: <)
-    ImsLocalTime         \* wrong design: If-Modified-Since is converted through the process's local time
+    ImsLocalTime,        \* wrong design: If-Modified-Since is converted through the process's local time
+    ImsNotAfterNow       \* wrong design: an If-Modified-Since later than the server's clock is treated as absent
+
+(* the part of the file system that changes between requests: the file root/m is absent (0) or present in one of
+   two versions of different size and content (1, 2).  Every operator below is evaluated in the current state. *)
+VARIABLE mstate
 
 (* ------------------------------------------------------------------------------------- *)
 (* atoms and strings                                                                      *)
@@ -46,7 +51,7 @@ Width(a) == CASE a = "L"    -> 171
               [] a = "base" -> 11
               [] a = "root" -> 4
               [] a \in {"sub", "fb3", "tmp"} -> 3
-              [] a \in {SEP, DOT, SP, BSL, BAD, "x", "t", "u"} -> 1
+              [] a \in {SEP, DOT, SP, BSL, BAD, "x", "t", "u", "m"} -> 1
               [] OTHER -> 2
 RECURSIVE StrWidth(_)
 StrWidth(s) == IF s = <<>> THEN 0 ELSE Width(Head(s)) + StrWidth(Tail(s))
@@ -75,12 +80,15 @@ Root   == Base \o << <<"root">> >>
 Sib    == Base \o << <<"root", "x">> >>           \* ".../rootx": shares the root's name as a string prefix
 F(dir, seg, size, tag) == [path |-> dir \o <<seg>>, size |-> size, tag |-> tag]
 D(p) == [path |-> p, size |-> -1, tag |-> 0]
-FS == { D(<<>>), D(Tmp), D(Base), D(Root), D(Sib), D(Root \o << <<"sub">> >>),
+MutFS == CASE mstate = 1 -> {F(Root, <<"m">>, 3, 12)} [] mstate = 2 -> {F(Root, <<"m">>, 5, 13)} [] OTHER -> {}
+StaticFS ==
+      { D(<<>>), D(Tmp), D(Base), D(Root), D(Sib), D(Root \o << <<"sub">> >>),
         F(Root, <<"f0">>, 0, 1), F(Root, <<"f1">>, 1, 2), F(Root, <<"f2">>, 2, 3), F(Root, <<"f3">>, 3, 4),
         F(Root, <<"f4">>, 4, 5), F(Root, <<"f5", DOT, "t">>, 5, 6), F(Root, <<"f6">>, 6, 7),
         F(Root \o << <<"sub">> >>, <<"g2">>, 2, 8),
         F(Sib, <<"s4">>, 4, 9), F(Base, <<"o5">>, 5, 10), F(Base, <<"fb3">>, 3, 11) }
 
+FS == MutFS \cup StaticFS
 NoEnt == [path |-> <<>>, size |-> -2, tag |-> 0]
 Ent(p)    == IF \E e \in FS : e.path = p THEN CHOOSE e \in FS : e.path = p ELSE NoEnt
 IsDir(p)  == Ent(p).size = -1
@@ -164,7 +172,8 @@ FinalReject(fp) == \/ (CheckFinalDots /\ Occurs(fp, DD))
      range [k |-> "none"|"fl"|"f"|"s"|"unit"|"bad", a |-> first or suffix length, b |-> last]
      ims   [k |-> "none" | "bad" | "date", d |-> If-Modified-Since minus the file's modification time
             truncated to whole seconds, both as UTC instants, in seconds]
-     zone  the time zone of the serving process (an environment dimension: no outcome may depend on it)    *)
+     zone  the time zone of the serving process (an environment dimension: no outcome may depend on it)
+     clock where the server's clock stands relative to the file's modification time (likewise)          *)
 NoServe(opens) == [file |-> FAIL, opens |-> opens]
 Serve(c) ==
     LET hasfb == c.fb # "none" IN
@@ -216,11 +225,17 @@ ZoneOffsets(z) == CASE z = "UTC" -> <<0, 0>>
                     [] z = "Pacific/Kiritimati" -> <<50400, 50400>>
                     [] z = "Pacific/Pago_Pago" -> <<-39600, -39600>>
 NoIms == [k |-> "none", d |-> 0]
+(* the server's clock relative to the file's modification time (the harness gives the files these times):
+   two past epochs (2001, 2002: about 25 years before now) and two future ones (now + 1 day, now + 10 years) *)
+AllClocks == {"past", "past2", "future1d", "future10y"}
+NowMinusMtime(k) == CASE k = "past" -> 790000000 [] k = "past2" -> 780000000      \* approximately
+                      [] k = "future1d" -> -86400 [] k = "future10y" -> -315360000
 (* ReadsUtcTupleAsLocalTime (wrong design): mktime() of the UTC fields gives the instant minus the offset *)
 NotModified(c) ==
     /\ c.ims.k = "date"
     /\ LET d == IF ImsLocalTime THEN c.ims.d - ZoneOffsets(c.zone)[1] ELSE c.ims.d
        IN  IF ImsLe THEN d >= 0 ELSE d > 0
+    /\ (ImsNotAfterNow => c.ims.d <= NowMinusMtime(c.clock))      \* DateAheadOfClockIsInvalid (wrong design)
 
 RespFor(f, c) ==
     IF c.ims.k = "bad" THEN Err(400)
